@@ -36,7 +36,32 @@ CLAIMS = {
  "C15": ("deterministic simulation: every accepted delivery compared part by part with what was submitted and with the key store's answer",
          "Seeded search inheriting the general and form worlds; method, version, header multiset and per-name order, body, URI (or merged query when folded), principal and session data are compared.",
          "When folding rebuilt the URI only the query multiset and path equivalence are asserted (authority of absolute-form targets is not preserved; recorded as an observation).", "DESIGN.md §4 C15"),
+ "C06": ("deterministic simulation (weakest fit): key-store node deriving through every cache level and shortcut over simulated dates vs the client's independent HMAC chain; seeded generation of secrets/capacities",
+         "Seeded search over secrets (every length around every capacity), dates (years 1-9999, leap days) and scope strings; two parties must agree bit for bit. The statement is a pure function of its inputs: the simulator contributes only the second party and the calendar, the rest is seeded generation (stated in DESIGN §4 C06).",
+         "Only the default capacity exposes key bytes (AsRef); other capacities are observed through Result and equality only.", "DESIGN.md §4 C06"),
+ "C08": ("deterministic simulation: global no-panic invariant at every seam of every run, plus a size/shape/charset/capacity swarm; worker processes so that aborts are findings",
+         "Seeded search with overflow checks and debug assertions compiled in; unwinding panics are caught at every executor step, provider call, body poll and drop, abnormal worker exits are bisected to the run.",
+         "Allocation failure is not injected (abort by design). unescape_uri_encoding on malformed input is exempt as documented.", "DESIGN.md §4 C08"),
+ "C09": ("deterministic simulation of intermediaries re-spelling / tampering with paths between signer and verifier, plus seeded direct comparison with the reference normal form (partly generation only)",
+         "Seeded search over path strings and spellings in both modes; equality with the reference normal form, idempotence, insensitivity, exact failure set; thorough appends a fixed sweep (every byte in every spelling, every two-character escape, every path of ≤4 segments over a 9-token alphabet).",
+         "Raw '+' in a path is a recorded known finding and excluded from assertions. Trailing-slash rule follows botocore (DESIGN §3.1).", "DESIGN.md §4 C09"),
+ "C10": ("deterministic simulation: harness-owned hash seeds (process incarnations via the getrandom seam), permutation and re-spelling by intermediaries; reference canonical query",
+         "Seeded search over pair multisets × spellings × hash seeds; every canonical string must equal the reference; end-to-end acceptance is independent of order and spelling.",
+         "std's RandomState obtains its keys through the interposable libc getrandom symbol (verified on this toolchain by the self-test).", "DESIGN.md §4 C10"),
+ "C16": ("deterministic simulation: clients rendering a simulated ns clock in every admissible form, network corruption of date text, boundary deliveries that pin the parsed instant to the nanosecond",
+         "Seeded search over date texts on both carriers; three-class reference verdict (must accept / must reject / unspecified); thorough appends the fixed field/separator/offset/fraction sweep. Partly generation only (DESIGN §4 C16).",
+         "Mixed separators, offsets 15:00-23:59, lower-case t/z and year 0000 are unspecified: only 'if accepted, the instant is the reference instant' is asserted.", "DESIGN.md §4 C16"),
+ "C17": ("deterministic simulation: history check over everything a run emitted (capturing log seam, errors, Debug/Display) with a secret-material scanner",
+         "Seeded search over tampered/defective/provider-failing/accepted deliveries; every emitted text is scanned for each secret, derived key and withheld correct signature in raw, hex, base64 and decimal-list form.",
+         "Secrets shorter than 8 bytes are not searched for; provider error texts come from the harness.", "DESIGN.md §4 C17"),
+ "C18": ("deterministic simulation: baton-scheduled real threads at log/provider seams, harness-owned hash seeds, fresh processes with contended first use; outcome equality against a single-thread golden",
+         "Seeded search over schedules × hash seeds × processes for a per-run corpus; the schedule is recorded and replays exactly; message text is not part of the outcome.",
+         "Preemption only at seams in the native engine; the real-parallel first-use phase in the fresh process is not schedule-controlled (its assertion holds for every schedule).", "DESIGN.md §4 C18"),
+ "C19": ("deterministic simulation: duplication faults on authentication inputs in every order, exactly one selection valid; reference selection rules",
+         "Seeded search over duplicated inputs × positions on both carriers; the documented selection table and the reference verdict from bytes must agree before the library is judged; the key store records which identity was selected.",
+         "The signer signs the request with the duplicate in place where the duplicate is part of the canonical form.", "DESIGN.md §4 C19"),
 }
+
 
 NOT_YET = {}
 NA = {
